@@ -72,6 +72,7 @@ DOCS = {
     "xt_abort": '<r %s xsi:noNamespaceSchemaLocation="sx.xsd"><undecl xsi:type="B" q="x"/><k/></r>' % XSI,
     # --- fragments for DOMLSParser::parseWithContext
     "fr1": '<x>t</x>', "fr2": '<y a="1"><z/> </y>', "frbad1": '<x>', "frbad2": '<x></y>', "frbad3": '<x a=1/>',
+    "frext": '<!DOCTYPE x SYSTEM "e1.dtd"><x>t</x>',       # the resource resolver is called (an exception can leave it)
     # --- no DTD
     "plain": '<a><b id="i1" ref="i2">x</b><c/></a>',
     "plain2": '<?xml version="1.0" encoding="UTF-8"?><a d="1"><!--c--><?pi data?><b>t</b><![CDATA[<x>]]></a>',
@@ -666,6 +667,7 @@ def run(ctx):
         ("wit-F15u", "H dom SG s:ns:1 s:schema:1 s:val:1 p:slax1 F:slax2"),
         ("wit-F15c", "H sax2 DG s:cache:1 p:cref p:dext1 F:nsempty"),
         ("wit-F22", "S add:x add:y sync id:zz id:x add:q id:q id:nope count"),
+        ("wit-F15a", "H ls IG s:filter:2 pab:dv1 F:dv1"), ("wit-F15w", "H ls IG s:val:1 pcx:frext:1:0:1 F:dbad1"),
     ]
     cases += wit
     nh = 110 if not thorough else 7000
@@ -710,6 +712,14 @@ def run(ctx):
     for api in APIS:
         for mode in range(4):
             cases.append(("ls-filter-" + api, "H %s IG s:val:1 pf:dv2:%d pu:dws F:dws" % (api, mode)))
+    # DOMLSParser: abort() called from the installed filter (every filter behaviour), then parses with the same filter;
+    # parseWithContext left by an exception of the resource resolver / by none (k beyond the callbacks)
+    for mode in range(1, 5):
+        for d, f in (("dv1", "dv2"), ("dv2", "dv1")):
+            cases.append(("ls-abort", "H ls %s s:val:1 s:filter:%d pab:%s p:%s F:%s" % (SCANNERS[mode % 4], mode, d, f, f)))
+            cases.append(("ls-abort", "H ls IG s:filter:%d p:%s F:%s" % (mode, d, f)))
+    cases.append(("ls-ctxexc", "H ls IG s:val:1 pcx:frext:2:1:1 p:plain F:dv1"))
+    cases.append(("ls-ctxexc", "H ls IG s:val:1 pcx:frext:1:0:9 F:dbad1"))
     # locked pool: parses and loads that would add grammars
     for api in APIS:
         for sc in ("IG", "SG"):
@@ -746,7 +756,14 @@ def run(ctx):
             req = lines[len(impl)]
             impl.append("crash rc=%d" % rc1)
             crashes += 1
-            if f15c_class(req) and ctx.find_known("F15c"):
+            if f15w_class(req) and ctx.find_known("F15w"):
+                if not any(k.startswith("F15w") for k in ctx.known_hits):
+                    ctx.known_finding("F15w", "an exception (resource resolver callback, out of memory) that leaves "
+                                      "DOMLSParser::parseWithContext leaves the parser in parse-with-context mode: validation "
+                                      "scheme and whitespace setting stay overwritten, fDocument keeps pointing to the APPLICATION's "
+                                      "context document, which the next reset() moves into the parser-owned document vector and the "
+                                      "parser later deletes (double free) (reproduced by `%s`)" % req)
+            elif f15c_class(req) and ctx.find_known("F15c"):
                 if not any(k.startswith("F15c") for k in ctx.known_hits):
                     ctx.known_finding("F15c", "DGXMLScanner with cacheGrammarFromParse: after a parse has cached the DTD "
                                       "grammar, parsing a document with an external DTD subset and then another document "
@@ -827,6 +844,9 @@ def run(ctx):
             hd, hops, _f = split_hist(req)
             if par in ("ns", "schema") and (hd[2] == "SG" or "us:SG" in hops) and ctx.find_known("F21b"):
                 known_seen.setdefault("F21b", req)
+                continue
+            if par == "filter" and hd[1] == "ls" and any(o.startswith("pab:") for o in hops) and ctx.find_known("F15a"):
+                known_seen.setdefault("F15a", req)
                 continue
             small = shrink(xh, req)
             ctx.violation("configchanged", {"request": small, "original_request": req, "impl": i[:3000],
@@ -920,6 +940,9 @@ def run(ctx):
         "F15k": "cacheGrammarFromParse with a LOCKED grammar pool: the pool refuses the grammar (it stays in the per-parse bucket) "
                 "but its SchemaInfo is stored in the persistent fCachedSchemaInfoList, so the next parse treats the schema "
                 "as already seen, skips loading it and leaves the document unvalidated (no defaults, no type information)",
+        "F15a": "DOMLSParser::abort() overwrites the application's filter (fFilter = &g_AbortFilter) and the next parse operation "
+                "sets fFilter = 0: getFilter() no longer returns the installed filter and later parses run unfiltered, unlike a "
+                "fresh parser that received the same setFilter call",
         "F22": "XMLSynchronizedStringPool::getId(unknown string) returns the constant pool's string count (the id of "
                "another string) instead of 0",
     }
@@ -954,6 +977,12 @@ def f15c_class(req):
     ext = any(o.split(":")[0] in ("p", "px", "pn", "pa", "pu", "pf") and o.split(":")[1] in EXT_DTD_DOCS for o in ops) or \
         t[-1].split(":")[1] in EXT_DTD_DOCS
     return dg and "s:cache:1" in ops and ext
+
+
+def f15w_class(req):
+    """crash class F15w: DOMLSParser::parseWithContext with an exception injected into a callback (pcx:) earlier in the history"""
+    t = req.split()
+    return t[0] == "H" and t[1] == "ls" and any(o.startswith("pcx:") for o in t[3:-1])
 
 
 def f22_class(req, impl, model):
